@@ -220,6 +220,16 @@ class _FakeThread:
     def is_alive(self):
         return False
 
+    isAlive = is_alive
+
+    def isDaemon(self):
+        return self.daemon
+
+    def getName(self):
+        return self.name
+
+    ident = None
+
 
 class _ThreadingShim:
     def __init__(self, real):
